@@ -335,7 +335,7 @@ func c16routine(c *Ctx, rt *Routine) {
 	}
 	// S4-S6: defer order of the entry
 	fn := rt.E.Entry
-	order, okOrder := DeferRunOrder(fn)
+	order, okOrder := p.CleanupOrder(fn)
 	ekey := p.FnKey(fn)
 	if !okOrder {
 		r.Fail("S4", ekey, p.Pos(fn.Pos()), "UNDECIDED: conditional defer in a goroutine entry")
@@ -582,7 +582,7 @@ func (p *Prog) chanCapacityConst(d *Disc, name string) int64 {
 					continue
 				}
 				fa, ok := st.Addr.(*ssa.FieldAddr)
-				if !ok || fieldName(fa.X.Type(), fa.Field) != name || namedOrigin(fa.X.Type()) != d.Named {
+				if !ok || fieldName(fa.X.Type(), fa.Field) != name || rootStructOf(fa) != d.Named {
 					continue
 				}
 				mc, ok := st.Val.(*ssa.MakeChan)
